@@ -51,6 +51,14 @@ def tree_case(ctx, case):
             ctx.violation('%s:api:%s:cwd-%s' % (PROP, what, c), 'include tree assembled from cwd=%s gives %s, the spliced file gives %d bytes %s'
                           % (c, r[1] if r[0] != 'ok' else (r[1][:24].hex(), r[2]), len(ref[1]), ref[2]), 'tree_case', case,
                           expected=dict(out=ref[1], labels=ref[2], constants=ref[3]), observed=dict(status=r[0], out=r[1], labels=r[2], constants=r[3]))
+    if 'gone' in case['cwds']:
+        # the spliced program handed over as source TEXT needs nothing from any directory: it must assemble from a removed working directory as well
+        with trees.cwd(dirs['gone'], gone=True):
+            ctx.count('runs')
+            r = assemble(asm, trees.spliced(case['tree']), compress=comp)
+        if r != ref:
+            ctx.violation('%s:api-text:%s:cwd-gone' % (PROP, 'refused' if r[0] != 'ok' else 'different'), 'the spliced program given as source text, assembled from a removed working '
+                          'directory, gives %s' % (r[1] if r[0] != 'ok' else r[1][:24].hex(),), 'tree_case', case, expected=dict(out=ref[1], labels=ref[2]), observed=dict(status=r[0], out=r[1]))
     if case.get('cli'):
         outp = os.path.join(base, 'out.bin')
         for c in case['cwds']:
